@@ -118,4 +118,12 @@ func splitComma(s string) []string {
 	return out
 }
 
-func cmdCheck(args []string) { fmt.Println("not yet") }
+func cmdCheck(args []string) {
+	fs := flag.NewFlagSet("check", flag.ExitOnError)
+	prop := fs.String("prop", "", "property spec json")
+	tier := fs.String("tier", "quick", "quick|thorough")
+	only := fs.String("only", "", "regexp restricting harness functions")
+	verbose := fs.Bool("v", false, "verbose")
+	fs.Parse(args)
+	os.Exit(sym.RunCheck(*prop, *tier, *only, *verbose))
+}
